@@ -1,6 +1,9 @@
-"""C15 — matrix routine: structural clauses (wiring, product formula, triangularity, storage offsets) by the kernel engine."""
-from .kernels import run_c15
+"""C15 — matrix routine: structural clauses (wiring, product formula, triangularity, storage offsets, recurrences) by the kernel engine."""
+from .kernels import run_c15, run_c15e
 
 
 def run(ctx):
     run_c15(ctx)
+    run_c15e(ctx)
+    from .c15f import run_c15f
+    run_c15f(ctx)
